@@ -28,7 +28,7 @@ a new helper, a bulk or batched path, `reindex()` inside insert, `shutil.copyfil
 Model does not mirror, however rarely the new path is taken. The listing ignores statement order, conditions,
 constants, comments and formatting. -/
 """
-text = tables.render_callgraph(tables.callgraph_tables(src), "TinyFlux.Model.CallGraph", HEADER)
+text = tables.render_callgraph(tables.callgraph_tables(src), "TinyFlux.Model.CallGraph", HEADER, orders=tables.order_tables(src))
 out = os.path.join(os.path.dirname(HERE), "lean", "TinyFlux", "Model", "CallGraph.lean")
 with open(out, "w", encoding="utf-8") as f:
     f.write(text)
